@@ -27,7 +27,7 @@ def sess(nmax, tiers, sfx):
                               bound='pre-state as in the steps with n <= %d and stream management active; events: <a h=H1/>, connection loss, enable on a new session, optionally one send, then <a h=H2/> resp. resumed(h=H2); H1, H2 arbitrary' % nmax) for e in SESS])]
 SPEC = dict(
     property='C09',
-    groups=groups(4, ('quick', 'thorough'), '') + sess(3, ('quick', 'thorough'), '') + groups(6, ('thorough',), '6'),
+    groups=groups(4, ('quick', 'thorough'), '') + sess(3, ('quick', 'thorough'), '') + sess(4, ('thorough',), '4') + groups(6, ('thorough',), '6'),
     bounds=[
         'one event per instance, applied to an ARBITRARY pre-state satisfying the representation invariant INV: the unacknowledged store holds n <= 4 (quick) / n <= 6 (thorough groups *6) stanzas with consecutive keys lastOut-n+1..lastOut, n <= lastOut, none of them reported yet; enabled flag arbitrary; lastOut, lastIn < 2^31',
         'every step asserts INV again for its post-state and h_initial proves INV for a fresh manager, so by induction the per-event claims hold along every event sequence that never has more than 4 (6) unacknowledged stanzas pending',
